@@ -343,3 +343,9 @@ func ruleC18Memo(p *Prog, r *Res) {
 	}
 	r.Floor(rule, 2, n)
 }
+
+func init() {
+	register("C18",
+		"C18-c (FRESH): in ConstantSuffix the accumulator handed to the first branch of an alternation is an owned copy, so the two branches cannot extend one array (shared with C04-d).",
+		ruleSuffixBranchOwned("C18-c suffix-branch-owned"))
+}
